@@ -5,7 +5,7 @@ Usage: tools/baseline.py [repo_dir] [-n workers]"""
 import json, os, subprocess, sys, tempfile
 import xml.etree.ElementTree as ET
 repo = sys.argv[1] if len(sys.argv) > 1 and not sys.argv[1].startswith('-') else '/repo'
-nw = '8'
+nw = '0'
 if '-n' in sys.argv:
     nw = sys.argv[sys.argv.index('-n') + 1]
 base = json.load(open('/root/.vp/BASELINE.json'))
